@@ -667,6 +667,40 @@ def _make_os_shim():
     return m
 
 
+# -------------------------------------------------------- shim: subprocess
+import subprocess as _subprocess
+
+
+class _SubprocessShim(types.ModuleType):
+    def __getattr__(self, name):
+        return getattr(_subprocess, name)
+
+
+SUBPROCESS_CALLS = []
+
+
+def _make_subprocess_shim():
+    """Fault `encoder_missing`: no external encoder (ffmpeg / avconv / sox)
+    can be started - what the sealed sandbox looks like anyway, made
+    independent of the machine."""
+    m = _SubprocessShim("subprocess(sim)")
+
+    def Popen(cmd, *a, **k):
+        SUBPROCESS_CALLS.append(list(cmd) if isinstance(cmd, (list, tuple))
+                                else cmd)
+        for v in (k.get("stdin"), ):
+            try:
+                if hasattr(v, "close"):
+                    v.close()
+            except Exception:
+                pass
+        raise FileNotFoundError(2, "No such file or directory: %r" % (
+            cmd[0] if isinstance(cmd, (list, tuple)) else cmd,))
+
+    m.Popen = Popen
+    return m
+
+
 # ------------------------------------------------------------ print capture
 PRINTED = []
 
@@ -745,6 +779,7 @@ def bind():
         "threading": _make_threading_shim(),
         "wave": _make_wave_shim(),
         "os": _make_os_shim(),
+        "subprocess": _make_subprocess_shim(),
     }
     _BOUND["shims"] = shims
     _install_global_time(shims["time"])
@@ -785,6 +820,8 @@ def bind():
                 new = sim_named_temporary_file
             elif val is _os and short == "workers":
                 new = shims["os"]
+            elif val is _subprocess and short == "workers":
+                new = shims["subprocess"]
             if new is not None:
                 setattr(mod, name, new)
                 report.append((short, name, type(new).__name__))
@@ -804,6 +841,7 @@ def reset_captures(scratch_dir=None):
     del PRINT_META[:]
     del STDERR[:]
     del SYSTEM_CALLS[:]
+    del SUBPROCESS_CALLS[:]
     del READERS[:]
     FILE_STALL["plan"] = None
     PROXY_FILES["on"] = False
